@@ -71,13 +71,13 @@ def replay(h, playback, S, env):
 use cedar_policy_core::entities::Entities;
 use cedar_policy_core::evaluator::Evaluator;
 use cedar_policy_core::extensions::Extensions;
-use cedar_policy_core::parser::parse_expr;
 fn check(src: &str, expected: bool) {
     let q = Request::new((EntityUID::with_eid_and_type("T", "p").unwrap(), None), (EntityUID::with_eid_and_type("Action", "a").unwrap(), None),
         (EntityUID::with_eid_and_type("T", "r").unwrap(), None), Context::empty(), None::<&RequestSchemaAllPass>, Extensions::all_available()).unwrap();
     let es = Entities::new();
     let ev = Evaluator::new(q, &es, Extensions::all_available());
-    let v = ev.interpret_inline_policy(&parse_expr(src).unwrap()).unwrap();
+    let e: cedar_policy_core::ast::Expr = src.parse().unwrap();
+    let v = ev.interpret(&e, &std::collections::HashMap::new()).unwrap();
     assert_eq!(v, expected.into(), "{src}");
 }
 #[test]
